@@ -362,6 +362,11 @@ func (eval Evaluator) Sub(op0 *rlwe.Ciphertext, op1 rlwe.Operand, opOut *rlwe.Ci
 
 		if op0.Scale.Cmp(op1.El().Scale) == 0 {
 			eval.evaluateInPlace(level, op0, op1.El(), opOut, ringQ.AtLevel(level).Sub)
+
+			// The terms of op1 of degree higher than op0's are copied as they are: negates them
+			for i := op0.Degree() + 1; i < op1.Degree()+1; i++ {
+				ringQ.AtLevel(level).Neg(opOut.Value[i], opOut.Value[i])
+			}
 		} else {
 			eval.matchScaleThenEvaluateInPlace(level, op0, op1.El(), opOut, ringQ.AtLevel(level).MulScalarThenSub)
 		}
